@@ -53,7 +53,7 @@ func init() {
 						}
 					},
 					Run:      func(c *runner.Ctx, i int) { valueCase(c, i, m) },
-					Required: []string{"marshal_ok", "roundtrips", "nested_types", "large_collections"},
+					Required: []string{"marshal_ok", "roundtrips", "nested_types", "large_collections", "marshal_results_rechecked"},
 				}}
 			},
 		}
@@ -292,6 +292,23 @@ func valueCase(c *runner.Ctx, i int, m valMode) {
 	}
 	ti := typeInfo(t, proto)
 	opts := gen.Opts{Proto: proto, AllowNull: proto >= 3, OutOfRange: 12}
+	// what Marshal returned is kept and looked at again after the later Marshal calls of this case: the driver
+	// itself marshals every bound value of a statement before it writes any of them
+	type heldOut struct {
+		b, snapshot []byte
+		what        string
+	}
+	var held []heldOut
+	defer func() {
+		for _, h := range held {
+			c.Add("marshal_results_rechecked", 1)
+			if !bytes.Equal(h.b, h.snapshot) {
+				c.Violation(fmt.Sprintf("%s:marshal-result-changed-after-return:%s", c.Prop, t.Name0()), fmt.Sprintf("the bytes Marshal returned for %s were %x and read %x after %d later Marshal calls", h.what, clip(h.snapshot), clip(h.b), len(held)),
+					map[string]interface{}{"proto": proto, "type": t.String(), "value": h.what})
+				break
+			}
+		}
+	}()
 	for k := 0; k < 6; k++ {
 		var v cqlref.Val
 		if large {
@@ -336,6 +353,9 @@ func valueCase(c *runner.Ctx, i int, m valMode) {
 			continue
 		}
 		c.Add("marshal_ok", 1)
+		if len(b) > 0 && len(b) < 1<<16 {
+			held = append(held, heldOut{b, append([]byte{}, b...), clipS(v.String(t))})
+		}
 		if c.WantSample() {
 			c.Sample(map[string]interface{}{"proto": proto, "type": t.String(), "go_form": sf.String(), "value": v.String(t), "gocql_bytes": fmt.Sprintf("%x", clip(b)), "reference_bytes": fmt.Sprintf("%x", clip(ref))})
 		}
